@@ -55,6 +55,7 @@ type (
 		Params []string
 		Args   []CExpr
 		Body   CExpr
+		Heap   bool // the function reads the heap: the body is evaluated in the caller's heap
 	}
 )
 
@@ -166,7 +167,15 @@ type Example struct {
 	By   []CStmt
 }
 
+// GhostField: a specification-only field of a (library) struct type, e.g. the unread input of a bufio.Reader
+type GhostField struct {
+	Owner string // type text, e.g. bufio.Reader
+	Name  string
+	Type  string
+}
+
 type ContractFile struct {
+	Ghosts   []*GhostField
 	Path     string
 	Pkg      string
 	Funcs    []*FuncContract
@@ -372,7 +381,7 @@ func (p *parser) ident() string {
 
 var declKeywords = map[string]bool{
 	"pure": true, "lemma": true, "auto": true, "func": true, "property": true,
-	"trusted": true, "example": true, "axiom": true, "uninterpreted": true,
+	"trusted": true, "example": true, "axiom": true, "uninterpreted": true, "ghost": true,
 }
 var clauseKeywords = map[string]bool{
 	"requires": true, "ensures": true, "decreases": true, "modifies": true, "loop": true,
@@ -547,6 +556,18 @@ func (p *parser) decl(cf *ContractFile) {
 			}
 		}
 		cf.Funcs = append(cf.Funcs, fc)
+	case "ghost":
+		p.next()
+		if !p.acceptId("field") {
+			p.fail("expected 'ghost field'")
+		}
+		owner := p.typeText()
+		i := strings.LastIndex(owner, ".")
+		if i < 0 {
+			p.fail("ghost field: expected Type.name")
+		}
+		gf := &GhostField{Owner: owner[:i], Name: owner[i+1:], Type: p.typeText()}
+		cf.Ghosts = append(cf.Ghosts, gf)
 	case "property":
 		p.next()
 		pd := &PropertyDecl{ID: p.ident()}
